@@ -10,6 +10,7 @@ package splat
 
 //@ func Read
 //@   props C14
+//@   modifies ghost consumed
 //@   returns mesh, err
 //@   exit whole_records_only: len(positionData) * 32 <= consumed(in) - old(consumed(in))
 //@   exit one_entry_per_record: len(scaleData) == len(positionData) && len(colorData) == len(positionData) && len(opacityData) == len(positionData) && len(rotationData) == len(positionData)
